@@ -11,6 +11,8 @@ def get_cells(input, lim=None):
     for c in input.cards(blocks='c', skipcomments=True):
         name, mat, geom, opts = c.parts()
         name = int(name)
+        if name in d:
+            raise ValueError(f'cell {name} is defined twice')
         d[name] = (mat, geom, opts)
         n += 1
         if lim and n > lim:
